@@ -61,6 +61,7 @@ def run(run, ix, tier):
     run.rule('C-R5', floor=1, desc='kernels called with a directed mode by rectangle functions honour it')
     run.rule('C-R5g', floor=1, desc='... and do not round a weakly guarded undirected intermediate')
     c14.check_directed_kernels(run, ix, callers=('mpci_',))
+    check_gamma_strip(run, ix)
 
 
 def check_binary_op(run, ix):
@@ -228,3 +229,56 @@ class _Collector(object):
 
     def fail(self, f):
         self.findings.append(f)
+
+
+# --------------------------------------------------------------------------- C-R17 (rectangles)
+# sup of |y| over the points x + iy with x <= 1.4616... (left of the positive minimum of gamma) at which
+# Re psi(x + iy) <= 0: 1.04827 (attained near x = 0.49; scan of x in [-60, 1.462] with step 1/32, zero in y located
+# by bisection with mpmath at 20 digits).  Outside that strip log|gamma| is monotone in x along horizontal lines,
+# which is what the corner enclosure of mpci_gamma relies on.
+RE_PSI_NEGATIVE_HEIGHT = 1.0483
+
+
+def _module_number(value):
+    """numeric value of a module-level constant expression of libmpi (from_float / from_int / fone / fnone ...)"""
+    if isinstance(value, ast.Name):
+        return {'fone': 1.0, 'fnone': -1.0, 'fzero': 0.0, 'ftwo': 2.0, 'fhalf': 0.5}.get(value.id)
+    if isinstance(value, ast.Call) and norm(value.func) in ('from_float', 'from_int') and value.args:
+        a = value.args[0]
+        sign = 1
+        if isinstance(a, ast.UnaryOp) and isinstance(a.op, ast.USub):
+            sign, a = -1, a.operand
+        if isinstance(a, ast.Constant) and isinstance(a.value, (int, float)):
+            return sign * float(a.value)
+    if isinstance(value, ast.Call) and norm(value.func) == 'mpf_neg' and value.args:
+        v = _module_number(value.args[0])
+        return None if v is None else -v
+    return None
+
+
+def check_gamma_strip(run, ix):
+    """C-R17 (rectangles).  mpci_gamma encloses log gamma by its values at the corners of the rectangle, which is
+    valid where Re psi > 0; rectangles that reach into the strip |Im z| <= c left of the minimum are first moved
+    right by the recurrence.  The strip constant must cover the whole region where Re psi is negative there:
+    gamma_mono_imag_b >= 1.0483 and gamma_mono_imag_a <= -1.0483 (with +-1.0 rectangles in 1 < |Im z| < 1.048 around
+    Re z = 0.4 get an invalid corner enclosure)."""
+    run.rule('C-R17', floor=2, desc='the excluded strip of the complex gamma enclosure covers the region Re psi <= 0')
+    m = ix.module('mpmath/libmp/libmpi.py')
+    vals = {}
+    for name, value, st, g in m.toplevel_assigns:
+        if name in ('gamma_mono_imag_a', 'gamma_mono_imag_b'):
+            vals[name] = (_module_number(value), st)
+    if set(vals) != {'gamma_mono_imag_a', 'gamma_mono_imag_b'}:
+        raise AnalysisError('strip constants of mpci_gamma not found')
+    for name, want_sign in (('gamma_mono_imag_a', -1), ('gamma_mono_imag_b', 1)):
+        v, st = vals[name]
+        if v is None:
+            raise AnalysisError('%s: value not understood (%s)' % (name, norm(st)))
+        if want_sign * v >= RE_PSI_NEGATIVE_HEIGHT:
+            run.ok('C-R17', '%s = %r lies outside the region Re psi <= 0 (height %.4f)' % (name, v, RE_PSI_NEGATIVE_HEIGHT))
+        else:
+            run.fail(Finding('C-R17', 'mpmath/libmp/libmpi.py', '<module>', norm(st),
+                             'the strip |Im z| <= %g does not cover the region left of the minimum of gamma where Re psi(z) '
+                             '<= 0, which reaches |Im z| = 1.0483 near Re z = 0.49: a rectangle between the two heights '
+                             'skips the recurrence and gets a corner enclosure that is not an enclosure '
+                             '(iv.loggamma(iv.mpc([0.25, 0.625], [1.015625, 1.03125])))' % abs(v), line=st.lineno))
